@@ -6,7 +6,7 @@ use futures_util::{SinkExt, StreamExt};
 use insim::net::{Codec, Mode};
 use proptest::prelude::*;
 use serde_json::{json, Value};
-use tokio::io::AsyncReadExt;
+use tokio::io::{AsyncRead, AsyncReadExt};
 use tokio_tungstenite::tungstenite::Message;
 
 use crate::engine::*;
@@ -29,6 +29,9 @@ pub struct WsCase {
     pub writes: Vec<Vec<u8>>,
     /// None: read through Framed; Some(sizes): read raw bytes with caller buffers of these sizes (cycled)
     pub raw_read_sizes: Option<Vec<usize>>,
+    /// raw reads only: each caller buffer is filled completely over as many polls as it takes (what read_exact / io::copy do:
+    /// the adaptor is polled with a buffer that already holds bytes) instead of one read call per buffer
+    pub raw_fill: bool,
 }
 
 const SESSION_LIMIT: Duration = Duration::from_secs(10);
@@ -130,10 +133,29 @@ fn run_session(c: &WsCase) -> Observed {
                             let sz = sizes[i % sizes.len()].max(1);
                             i += 1;
                             let mut buf = vec![0u8; sz];
-                            match stream.read(&mut buf).await {
-                                Ok(0) => break,
-                                Ok(n) => raw.extend_from_slice(&buf[..n]),
-                                Err(e) => return Err(format!("raw read: {e}")),
+                            if c.raw_fill {
+                                let mut rb = tokio::io::ReadBuf::new(&mut buf);
+                                let mut eof = false;
+                                while rb.remaining() > 0 {
+                                    let before = rb.filled().len();
+                                    if let Err(e) = std::future::poll_fn(|cx| std::pin::Pin::new(&mut stream).poll_read(cx, &mut rb)).await {
+                                        return Err(format!("raw read: {e}"));
+                                    }
+                                    if rb.filled().len() == before {
+                                        eof = true;
+                                        break;
+                                    }
+                                }
+                                raw.extend_from_slice(rb.filled());
+                                if eof {
+                                    break;
+                                }
+                            } else {
+                                match stream.read(&mut buf).await {
+                                    Ok(0) => break,
+                                    Ok(n) => raw.extend_from_slice(&buf[..n]),
+                                    Err(e) => return Err(format!("raw read: {e}")),
+                                }
                             }
                             if raw.len() > 4_000_000 {
                                 break;
@@ -263,7 +285,7 @@ pub fn judge(c: &WsCase, ev: &mut Local) -> Result<(), Fail> {
         ev.class("empty-binary-message");
     }
     if c.raw_read_sizes.is_some() {
-        ev.class("raw-reads");
+        ev.class(if c.raw_fill { "raw-reads filling each buffer over several polls" } else { "raw-reads" });
     }
     // longest run of consecutive messages that carry no data
     let mut longest = 0;
@@ -321,13 +343,14 @@ impl Part for WsSessions {
         Ok(())
     }
     fn to_json(&self, c: &WsCase) -> Value {
-        json!({"messages": c.messages.iter().map(msg_json).collect::<Vec<_>>(), "writes": c.writes.iter().map(|f| hex(f)).collect::<Vec<_>>(), "raw_read_sizes": c.raw_read_sizes})
+        json!({"messages": c.messages.iter().map(msg_json).collect::<Vec<_>>(), "writes": c.writes.iter().map(|f| hex(f)).collect::<Vec<_>>(), "raw_read_sizes": c.raw_read_sizes, "raw_fill": c.raw_fill})
     }
     fn from_json(&self, v: &Value) -> Option<WsCase> {
         Some(WsCase {
             messages: v.get("messages")?.as_array()?.iter().map(msg_from).collect::<Option<Vec<_>>>()?,
             writes: v.get("writes")?.as_array()?.iter().map(|f| unhex(f.as_str()?)).collect::<Option<Vec<_>>>()?,
             raw_read_sizes: v.get("raw_read_sizes").and_then(|s| s.as_array()).map(|a| a.iter().filter_map(|x| x.as_u64().map(|x| x as usize)).collect()),
+            raw_fill: v.get("raw_fill").and_then(|b| b.as_bool()).unwrap_or(false),
         })
     }
 }
@@ -379,7 +402,10 @@ pub fn ws_strategy() -> impl Strategy<Value = WsCase> {
                 let at = ix.index(messages.len() + 1);
                 messages.insert(at, m);
             }
-            WsCase { messages, writes: writes.iter().map(|f| frame_bytes(f, &MODE)).collect(), raw_read_sizes }
+            {
+                let raw_fill = raw_read_sizes.as_ref().map(|v| v.iter().sum::<usize>() % 2 == 0).unwrap_or(false);
+                WsCase { messages, writes: writes.iter().map(|f| frame_bytes(f, &MODE)).collect(), raw_read_sizes, raw_fill }
+            }
         })
 }
 
@@ -414,7 +440,7 @@ pub fn ws_ignored_run_strategy() -> impl Strategy<Value = WsCase> {
             let items: Vec<Msg> = (0..n).map(|i| kinds[i % kinds.len()].clone()).collect();
             messages.splice(at..at, items);
         }
-        WsCase { messages, writes: vec![], raw_read_sizes: None }
+        WsCase { messages, writes: vec![], raw_read_sizes: None, raw_fill: false }
     })
 }
 
@@ -455,7 +481,8 @@ pub fn ws_burst_strategy() -> impl Strategy<Value = WsCase> {
             at.sort();
             at.dedup();
             let messages: Vec<Msg> = at.windows(2).map(|w| Msg::Binary(stream[w[0]..w[1]].to_vec())).collect();
-            WsCase { messages, writes: vec![], raw_read_sizes }
+            let raw_fill = raw_read_sizes.as_ref().map(|v| v.iter().sum::<usize>() % 2 == 0).unwrap_or(false);
+            WsCase { messages, writes: vec![], raw_read_sizes, raw_fill }
         })
 }
 
